@@ -7,10 +7,12 @@ OVERLAYS = [
     ("src/curve25519/fe/mod.rs", "verif_fe", "fe.rs", None, "crate::curve25519::fe"),
     ("src/curve25519/scalar/mod.rs", "verif_scalar", "scalar.rs", None, "crate::curve25519::scalar"),
     ("src/ed25519.rs", "verif_ed", "ed25519.rs", None, "crate::ed25519"),
+    ("src/curve25519/ge.rs", "verif_ge", "ge.rs", None, "crate::curve25519::ge"),
 ]
 # harness modules below a private module are re-exported from the nearest crate-visible ancestor for the native replay dispatcher
 EXPORTS = {
     "crate::curve25519::fe::verif_fe": ("src/curve25519/mod.rs", "self::fe::verif_fe", "verif_fe_x", None, "crate::curve25519"),
+    "crate::curve25519::ge::verif_ge": ("src/curve25519/mod.rs", "self::ge::verif_ge", "verif_ge_x", None, "crate::curve25519"),
 }
 _MS = ["mirsym: input limbs range over the stated classes (fe64: every limb <= 2^53-76 'LOOSE'; outputs proven <= 2^51-1+2^16 'TIGHT', which is inside LOOSE, so the "
        "classes are closed under composition)"]
